@@ -13,7 +13,6 @@ import (
 	"testing"
 	"time"
 
-	lru "github.com/hashicorp/golang-lru/v2"
 )
 
 /*
@@ -46,9 +45,7 @@ type verifSessionIn struct {
 	Fetches []verifFetch             `json:"fetches"`
 }
 
-func verifSetCache(capacity int) {
-	cache, _ = lru.New[string, bundle](capacity)
-}
+func verifSetCache(capacity int) { VerifSetCache(capacity) }
 
 func verifWorldJSON(w map[string]verifsim.Resp) verifkit.M {
 	out := verifkit.M{}
